@@ -207,6 +207,21 @@ Theorem C13_msa_section_roundtrip : forall ref ms, ref_ok ref -> Forall entry_ok
 Proof. exact msa_section_roundtrip. Qed.
 Print Assumptions C13_msa_section_roundtrip.
 
+(* alignments for several reference columns (add_alignments(ref=...)): one section per column; every cognate set of
+   every column comes back under its column and id - in the section alone and in the whole file *)
+Theorem C13_msa_sections_roundtrip : forall l, Forall section_ok l ->
+  closed_pre (msa_sections l) /\ read_msa_section (msa_sections l) = Ok (expected_sections l).
+Proof. exact msa_sections_roundtrip. Qed.
+Print Assumptions C13_msa_sections_roundtrip.
+
+Theorem C13_aligned_file_roundtrip_refs : forall tbl pretty stamp w l,
+  wl_okb tbl w = true -> Forall section_ok l -> Forall skipline stamp ->
+  exists ls, write pretty (msa_sections l) stamp w = Ok ls
+    /\ read tbl ls = Ok (mk_wl (wl_cols w) (sorted_rows w))
+    /\ read_msa_section ls = Ok (expected_sections l).
+Proof. exact aligned_file_roundtrip_refs. Qed.
+Print Assumptions C13_aligned_file_roundtrip_refs.
+
 Theorem C13_aligned_file_roundtrip : forall tbl pretty stamp w ref ms,
   wl_okb tbl w = true -> ref_ok ref -> Forall entry_ok ms -> Forall skipline stamp ->
   exists ls, write pretty (msa_section ref ms) stamp w = Ok ls
@@ -295,8 +310,8 @@ Proof. exact cell_eqb_sound. Qed.
 Print Assumptions C13_cell_eqb_sound.
 
 (* the <msa> checker (bit 7) compares with Leibniz equality *)
-Theorem C13_msa_checker_sound : forall a b, state_eqb msa_read_eqb a b = true -> a = b.
-Proof. exact msa_state_eqb_eq. Qed.
+Theorem C13_msa_checker_sound : forall a b, triples_eqb a b = true -> a = b.
+Proof. exact msa_triples_eqb_eq. Qed.
 Print Assumptions C13_msa_checker_sound.
 
 Theorem C13_checker_complete : forall tbl pretty pre stamp w,
